@@ -46,6 +46,9 @@ func c02Gen(r *core.Rand, i int) c02case {
 	m := gen.Map()
 	for _, j := range r.Perm(26)[:n] {
 		k := string(rune('a'+j)) + fmt.Sprint(r.Intn(3))
+		if r.P(1, 3) {
+			k = strings.ToUpper(k) // keys that differ only in case must still have one order
+		}
 		var v gen.V
 		switch r.Intn(4) {
 		case 0:
@@ -59,6 +62,8 @@ func c02Gen(r *core.Rand, i int) c02case {
 		}
 		m.M = append(m.M, gen.KV{K: k, V: v})
 	}
+	// pairs of keys differing only in case (and in nothing else)
+	m.M = append(m.M, gen.KV{K: "kk", V: gen.Int(1)}, gen.KV{K: "KK", V: gen.Int(2)}, gen.KV{K: "Kk", V: gen.Str("mixed")})
 	flat := gen.Map()
 	for _, kv := range m.M {
 		if kv.V.K == gen.KInt || kv.V.K == gen.KStr {
@@ -165,6 +170,9 @@ func runC02(c *core.Ctx) {
 			}
 		}
 		for k := 0; k < 10; k++ {
+			if k%3 == 1 {
+				c02Disturb(e, k) // earlier activity (including failing renders) must not matter
+			}
 			add(fmt.Sprintf("fresh parse %d", k), core.Run(e, cs.src, b0))
 		}
 		for k := 0; k < 5; k++ {
@@ -244,6 +252,18 @@ func runC02(c *core.Ctx) {
 		}
 	}
 	c02CLI(c)
+}
+
+// c02Disturb performs unrelated renders, some of which fail part-way inside loops.
+func c02Disturb(e *liquid.Engine, k int) {
+	srcs := []string{
+		"{% for i in (1..4) %}{% cycle 'a', 'b', 'c' %}{% if forloop.index == 2 %}{{ 1 | divided_by: 0 }}{% endif %}{% endfor %}",
+		"{% assign leak = 'x' %}{% capture cap %}y{% endcapture %}{% for i in (1..2) %}{% cycle 'g': 'p', 'q', 'r' %}{{ i | nosuchfilter }}{% endfor %}",
+		"{% tablerow i in (1..3) cols: 2 %}{% cycle '1', '2' %}{% if forloop.last %}{{ 'x' | plus: 1 }}{% endif %}{% endtablerow %}",
+		"{% for i in (1..5) %}{% cycle 'a', 'b' %}{% if i == 3 %}{% break %}{% endif %}{% endfor %}",
+	}
+	core.Run(e, srcs[k%len(srcs)], map[string]any{})
+	core.Run(liquid.NewEngine(), srcs[(k+1)%len(srcs)], map[string]any{})
 }
 
 // c02CLI compares the cmd/liquid binary with the library.
